@@ -43,8 +43,14 @@ class LayoutEval(SymEval):
         recv = self.eval(n["recv"], env)
         args = [self.eval(a, env) for a in n["args"]]
         if isinstance(recv, (Lay, Flat)) or any(isinstance(a, (Lay, Flat)) for a in args):
+            hb = self.F.private_helper(d, "simulation::interleaving::") if d else None
+            if hb is not None and self.depth < self.max_depth:
+                # a private helper of the interleaver working on the views: expanded
+                return self.inline_body(hb, [recv] + args)
             if m in self.PASS:
                 return recv
+            if m == "reversed_axes":
+                m = "t"         # reversed_axes() of a 2-D view is its transpose
             if m == "len" and isinstance(recv, Lay) and len(recv.shape) == 1:
                 return recv.shape[0]
             if m == "into_shape_with_order":
